@@ -178,6 +178,9 @@ func regressionSpanCases() []spanCase {
 		mk("bom-template", "template", "\xef\xbb\xbf<?php\n$total = 40 + 2;\necho $total, \"\\n\";\n"),
 		mk("bom-script", "script", "\xef\xbb\xbf$total = 40 + 2;\necho $total;\n"),
 		mk("bom-shebang-script", "script", "\xef\xbb\xbf#!/usr/bin/env origami\n<?php\n$a = 1;\n"),
+		mk("heredoc-blank-lead", "script", "$n = 1;\n$s = <<<EOT\n\nvalue {$n}\nEOT;\necho $s;\n"),
+		mk("heredoc-blank-lead-crlf", "template", "<?php\r\n$n = 1;\r\n$s = <<<EOT\r\n\r\n\r\nvalue $n\r\nEOT;\r\necho $s;\r\n"),
+		mk("heredoc-blank-lead-dollar", "script", "$s = <<<EOT\n\n\ncosts \\$5\n\nEOT;\necho $s;\n"),
 		mk("plain", "script", "$a = 1;\n$b = \"x\ny\";\necho $a;\n"),
 	}
 }
@@ -260,6 +263,28 @@ func (d *driver) spanCases() {
 		}
 		for _, m := range []string{"script", "template"} {
 			cases = append(cases, spanCase{ID: fmt.Sprintf("prefix/%s/gen%d/%s", px.Name, i, m), Family: "prefix", Mode: m, Src: []byte(px.Text + src)})
+		}
+		flush(false)
+	}
+	flush(true)
+
+	// heredoc / nowdoc shapes (blank lines at the start/end of the body, indentation, every
+	// interpolation form, every syntactic position), lexed in the mode they are written for and
+	// in the other one
+	r = e.Rand("span-heredoc")
+	for i, n := 0, e.Pick(3000, 40000); i < n; i++ {
+		src, tpl := genHeredocSource(r, d.q)
+		mode := "script"
+		if tpl {
+			mode = "template"
+		}
+		cases = append(cases, spanCase{ID: fmt.Sprintf("heredoc/%d/%s", i, mode), Family: "heredoc", Mode: mode, Src: []byte(src)})
+		if r.Intn(4) == 0 {
+			other := "template"
+			if tpl {
+				other = "script"
+			}
+			cases = append(cases, spanCase{ID: fmt.Sprintf("heredoc/%d/%s", i, other), Family: "heredoc", Mode: other, Src: []byte(src)})
 		}
 		flush(false)
 	}
@@ -555,6 +580,9 @@ func (d *driver) baseline(kind string) (msg string, ok bool, note string) {
 	if o.Crash {
 		return "", false, "go crash"
 	}
+	if f.CatchPrint {
+		o.Diag = parseLocEcho(o.Stdout)
+	}
 	if !o.Diag.Found {
 		return "", false, "no diagnostic"
 	}
@@ -777,6 +805,15 @@ func gencheckMain(args []string) {
 			}
 		}
 	}
+	for i := 0; i < 400; i++ {
+		g := &genState{r: e.Rand(fmt.Sprintf("gencheck/hs/%d", i))}
+		p := &program{Mode: "zy", Head: []chunk{g.chunk("heredoc-shaped")}}
+		src, _ := p.render()
+		o := runProgram(e, src, "zy", false)
+		if o.Exit != 0 || o.Stderr != "" {
+			fmt.Printf("--- heredoc-shaped %d exit=%d stderr: %s\n%s\n", i, o.Exit, firstLine(o.Stderr), src)
+		}
+	}
 	r := e.Rand("gencheck")
 	for i := 0; i < n; i++ {
 		p := genProgram(r, false, quarantine{})
@@ -790,6 +827,10 @@ func gencheckMain(args []string) {
 		d := &driver{e: e}
 		msg, ok, note := d.baseline(k)
 		fmt.Printf("fault %-22s ok=%v msg=%q %s\n", k, ok, msg, note)
+		if !ok {
+			g := &genState{r: e.Rand("baseline/" + k)}
+			fmt.Println(g.fault(k).Text)
+		}
 	}
 	fmt.Println("bad chunk kinds:", bad)
 }
